@@ -823,6 +823,34 @@ class C15(NlpCheck):
                     # re-entered with the PRNG advanced (at most three times)
                     self.count("slice-restarted-after-overflow")
 
+    def judge(self, desc, res):
+        """rockit's Bernstein algebra multiplies and converts with basis-transformation matrices that it computes NUMERICALLY (float constants
+        baked into the graph): for a cubic of a degree-4 step polynomial (degree 12) their rounding, amplified by the conditioning of the
+        transformation, reaches 1e-8 of the row's size. The exact walk reproduces those constants as they are, the rational model has the exact
+        ones. Rows left unmatched at the walk's 1e-9 tolerance get a second chance at 1e-6 of the row's size at every point; a row that is
+        wrong (a seeded change moves it by O(1)) stays unmatched."""
+        um = list(res.unmatched_model)
+        ui = list(res.unmatched_impl)
+        if um and len(um) <= len(ui) and all(t.startswith('inf') for t, _ in um):
+            left = list(ui)
+            ok = True
+            for t, vec in um:
+                hit = None
+                for j, (idx, ivals) in enumerate(left):
+                    if len(ivals) == len(vec) and all(abs(float(a) - float(b_)) <= 1e-6 * max(1.0, abs(float(a)), abs(float(b_))) for a, b_ in zip(vec, ivals)):
+                        hit = j
+                        break
+                if hit is None:
+                    ok = False
+                    break
+                left.pop(hit)
+            if ok and len(left) == len(ui) - len(um) and not (self.whole and left):
+                self.count("inf-rows-matched-at-float-noise", len(um))
+                res.unmatched_model = []
+                res.unmatched_impl = left
+                res.problems = [(k, d) for k, d in res.problems if k != 'rows']
+        return NlpCheck.judge(self, desc, res)
+
     def rows_slice(self):
         R = self.R_quick if self.tier == 'quick' else self.R_thorough
         n = 40 if self.tier == 'quick' else 500
